@@ -391,6 +391,9 @@ let c03_part t =
        let k = ti t in let seqs = tlist t k tz in
        if not (List.mem v !order) then order := !order @ [v];
        let (st', _) = pstep (get v) (Deliver (s, e, last, List.map (fun q -> (q, q)) seqs)) in set v st'
+     | "Z" -> let v = ti t in
+       if not (List.mem v !order) then order := !order @ [v];
+       let (st', _) = pstep (get v) DeliverEmpty in set v st'
      | "A" -> let v = ti t in let (st', _) = pstep (get v) ApplyBuffered in set v st'
      | "C" -> List.iter (fun v -> let (st', _) = pstep (get v) Clear in set v st') !order
      | x -> failwith ("bad op " ^ x));
@@ -476,6 +479,46 @@ let c06_chk t =
   let b = p_bv t in let g = p_ranges t in
   "ok=" ^ sb (inv_b b g)
 
+(* ---------- C01 layer 1 ---------- *)
+(* crdtm <nsites> <nops> { W <site> <n> {rec}*n | G <dst> {rec} | S <dst> }   rec = row S|T val colv cl site dbv seq
+   (val = -1 for the sentinel) ; prints the dump of the touched site after every op *)
+let p_rec t =
+  let row = tz t in let cid = tok t in let v = tz t in let colv = tz t in let cl = tz t in
+  let site = tz t in let dbv = tz t in let seq = tz t in
+  { r_row = row; r_sent = (cid = "S"); r_val = v; r_colv = colv; r_cl = cl; r_site = site; r_dbv = dbv; r_seq = seq }
+let fmt3 v = let s = int_of_z v in Printf.sprintf "%03d" s
+let dump_db (rank_to_name : int -> int) (d : db) =
+  let clk = List.concat_map (fun (id, st) ->
+      (match st.rw_sent with
+       | Some k -> [sz id ^ "/S:-:" ^ sz st.rw_cl ^ ":" ^ sz st.rw_cl ^ ":" ^ string_of_int (rank_to_name (int_of_z k.k_site)) ^ ":" ^ sz k.k_dbv ^ ":" ^ sz k.k_seq]
+       | None -> []) @
+      (match st.rw_col with
+       | Some c -> [sz id ^ "/T:" ^ fmt3 c.c_val ^ ":" ^ sz c.c_colv ^ ":" ^ sz st.rw_cl ^ ":" ^
+                    string_of_int (rank_to_name (int_of_z c.c_clk.k_site)) ^ ":" ^ sz c.c_clk.k_dbv ^ ":" ^ sz c.c_clk.k_seq]
+       | None -> [])) d in
+  let tbl = List.map (fun (id, v) -> sz id ^ "=" ^ (match v with Some x -> fmt3 x | None -> "")) (table d) in
+  "clk=" ^ String.concat "," (List.sort compare clk) ^ " tbl=" ^ String.concat "," tbl
+let c01_crdtm t =
+  let ns = ti t in
+  (* site names in rank order: rank i -> name *)
+  let names = Array.of_list (tlist t ns ti) in
+  let rank_to_name r = names.(r) in
+  let nops = ti t in
+  let sites = Array.make ns [] in
+  let outs = ref [] in
+  for _ = 1 to nops do
+    (match tok t with
+     | "W" -> let s = ti t in let n = ti t in let rs = tlist t n p_rec in
+       sites.(s) <- merge_all sites.(s) rs;
+       outs := dump_db rank_to_name sites.(s) :: !outs
+     | "G" -> let dst = ti t in let r = p_rec t in
+       sites.(dst) <- merge sites.(dst) r;
+       outs := dump_db rank_to_name sites.(dst) :: !outs
+     | "S" -> let dst = ti t in outs := dump_db rank_to_name sites.(dst) :: !outs
+     | x -> failwith ("bad op " ^ x))
+  done;
+  String.concat " # " (List.rev !outs)
+
 (* ---------- dispatch ---------- *)
 let handlers : (string * (toks -> string)) list ref = ref [
   "chunks", c08_chunks;
@@ -488,6 +531,7 @@ let handlers : (string * (toks -> string)) list ref = ref [
   "chk_needs", c04_chk;
   "members", c18_members;
   "chk_members", c18_chk;
+  "crdtm", c01_crdtm;
   "fromconn", c06_fromconn;
   "chk_reload", c06_chk;
   "ltxm", c07_ltxm;
